@@ -156,6 +156,9 @@ class Store:
 
         vid = int(a["valueId"])
         v = bytes(a["value"])
+        if vid in getattr(self, "refuse_values", ()):
+            # firmware that does not let the host set this value
+            return {"status": self.st("setValue", False)}
         self.values[vid] = v
         if vid == int(t.EzspValueId.VALUE_NWK_FRAME_COUNTER):
             self.nwk_fc = int.from_bytes(v, "little")
